@@ -153,7 +153,8 @@ JudgeRay(e) ==
 (*   i0, i   intensity before / after;  ap = <<has, rmin, rmax>> radial      *)
 (*   aperture in the surface frame;  tau: coating factor (T, or R at a       *)
 (*   mirror; 1 without coating);  ab: absorption certificate exp(-4 pi k d / *)
-(*   lambda) for the segment, with kz = TRUE iff k = 0                        *)
+(*   lambda) for the segment, with kz = TRUE iff k = 0;  last/ri: on the    *)
+(*   image surface, the intensity of the rays object the trace call returned   *)
 ISLACK == 40
 Inside(e) == LET q == LocPt(e, e.p)
                  r2 == DAdd(DSq(q[1]), DSq(q[2])) IN
@@ -176,6 +177,8 @@ JudgeIntensity(e) ==
        (IF e.i0 = DZero /\ e.i # DZero THEN {"dark_relit"} ELSE {}) \cup
        (IF OutsideStrict(e) /\ e.i # DZero THEN {"aperture_not_applied"} ELSE {}) \cup
        (IF ~AbsorbOK(e) THEN {"absorb_certificate"} ELSE {}) \cup
+       \* the intensity handed back by the trace call is the last surface's
+       (IF e.last /\ ~(e.ri = e.i \/ Close(e.ri, e.i, 40)) THEN {"returned_intensity"} ELSE {}) \cup
        (IF e.exact /\ InsideStrict(e) /\ ~Close(e.i, DMul(DMul(e.i0, e.ab), e.tau), 40) /\ ~(e.i = DZero /\ DMul(DMul(e.i0, e.ab), e.tau) = DZero)
         THEN {"factor"} ELSE {})
 =============================================================================
